@@ -340,4 +340,278 @@ the key is in the data cache) — only used by a negation witness -/
 def haveCellFast {ν : Type} (s : Cells ν) (k : Nat) : Bool :=
   (s.data.peek k).isSome || s.live k
 
+/-! ## round 6: scripts skipped (assume-valid, `Switch::DISABLE_SCRIPT`) and the block cycle sum
+
+`ContextualTransactionVerifier::verify(max_cycles, skip_script_verify)`: with `skip_script_verify`
+the script run is skipped and the result carries `cycles = 0`. `BlockTxsVerifier::verify(resolved,
+skip_script_verify)`: the hit path is the same as without the switch (time-relative checks, then the
+**cached** `Completed`, real cycles included); a miss runs the verifier with the switch; the block's
+results are put into the cache only when scripts were run (`!ret.is_empty() && !skip_script_verify`,
+/repo 06109c6 — before that commit they were always put: `blockVerifySwPreF32`); the cycle sum is
+taken over **all** results, hits included. -/
+
+def fullSw (k : Content) (maxCycles : Nat) (skip : Bool) (timeRel : Bool) (w : Nat) : Except TxErr Completed :=
+  if !timeRel then .error .timeRelative else
+  if !k.capacityOk w then .error .capacity else
+  if skip then
+    match k.fee w with
+    | none => .error .fee
+    | some f => .ok ⟨0, f⟩
+  else
+    match k.script w with
+    | none => .error .script
+    | some cyc =>
+      if cyc > maxCycles then .error .script else
+      match k.fee w with
+      | none => .error .fee
+      | some f => .ok ⟨cyc, f⟩
+
+def cachedSw (k : Content) (maxCycles : Nat) (c : VCache) (skip : Bool) (timeRel : Bool) (w : Nat) :
+    Except TxErr Completed :=
+  match c.peek w with
+  | some e => if !timeRel then .error .timeRelative else .ok e
+  | none => fullSw k maxCycles skip timeRel w
+
+def txResultsSw (k : Content) (maxCycles : Nat) (c : VCache) (skip : Bool) :
+    List (Nat × Bool) → Except TxErr (List (Nat × Completed))
+  | [] => .ok []
+  | (w, tr) :: rest =>
+    match cachedSw k maxCycles c skip tr w with
+    | .error e => .error e
+    | .ok r =>
+      match txResultsSw k maxCycles c skip rest with
+      | .error e => .error e
+      | .ok rs => .ok ((w, r) :: rs)
+
+/-- `BlockTxsVerifier::verify(resolved, skip)` as written after /repo 06109c6 -/
+def blockVerifySw (k : Content) (maxCycles : Nat) (c : VCache) (skip : Bool) (txs : List (Nat × Bool)) :
+    VCache × Except BlkErr (List Completed) :=
+  match txResultsSw k maxCycles c skip txs with
+  | .error e => (c, .error (.tx e))
+  | .ok rs =>
+    let c' := if skip then c else putAll c rs
+    if (rs.map (·.2.cycles)).sum > maxCycles then (c', .error .cycles) else (c', .ok (rs.map (·.2)))
+
+/-- … and before it (F32): the results of a block verified with scripts skipped were put too -/
+def blockVerifySwPreF32 (k : Content) (maxCycles : Nat) (c : VCache) (skip : Bool) (txs : List (Nat × Bool)) :
+    VCache × Except BlkErr (List Completed) :=
+  match txResultsSw k maxCycles c skip txs with
+  | .error e => (c, .error (.tx e))
+  | .ok rs =>
+    let c' := putAll c rs
+    if (rs.map (·.2.cycles)).sum > maxCycles then (c', .error .cycles) else (c', .ok (rs.map (·.2)))
+
+/-- a cycle sum that counts only the transactions whose scripts ran in this call (cache misses) —
+only used by a negation witness -/
+def blockVerifyMissSum (k : Content) (maxCycles : Nat) (c : VCache) (txs : List (Nat × Bool)) :
+    VCache × Except BlkErr (List Completed) :=
+  match txResults k maxCycles c txs with
+  | .error e => (c, .error (.tx e))
+  | .ok rs =>
+    let c' := putAll c rs
+    if ((rs.filter (fun r => (c.peek r.1).isNone)).map (·.2.cycles)).sum > maxCycles then (c', .error .cycles)
+    else (c', .ok (rs.map (·.2)))
+
+/-- node requests with the verification switch on blocks -/
+inductive NOpS
+  | reorg (ctx : Nat)
+  | block (skip : Bool) (ws : List Nat)
+  | submit (w : Nat)
+  | probe (w : Nat)
+  | evict (w : Nat)
+deriving Repr
+
+def nstepS (k : Content) (maxCycles : Nat) (since : Nat → Nat) (s : NodeS) : NOpS → NodeS × NAns
+  | .reorg ctx => ({ s with ctx := ctx }, .none)
+  | .block skip ws =>
+    let r := blockVerifySw k maxCycles s.cache skip (ws.map fun w => (w, mature since s.ctx w))
+    ({ s with cache := r.1 }, .blk r.2)
+  | .submit w =>
+    let r := vstep k maxCycles s.cache (.verify w (mature since s.ctx w))
+    ({ s with cache := r.1 }, .tx (cached k maxCycles s.cache (mature since s.ctx w) w))
+  | .probe w => (s, .tx (cached k maxCycles s.cache (mature since s.ctx w) w))
+  | .evict w => ({ s with cache := s.cache.filter (fun x => x.1 != w) }, .none)
+
+/-- the answers to the requests that run scripts; the answer of a block verified with scripts
+skipped is left out (`NAns.none`): it is characterised separately (`skip_block_*`) -/
+def nrunS (k : Content) (maxCycles : Nat) (since : Nat → Nat) : NodeS → List NOpS → List NAns
+  | _, [] => []
+  | s, op :: ops =>
+    let r := nstepS k maxCycles since s op
+    (match op with | .block true _ => NAns.none | _ => r.2) :: nrunS k maxCycles since r.1 ops
+
+def nrunSCold (k : Content) (maxCycles : Nat) (since : Nat → Nat) : Nat → List NOpS → List NAns
+  | _, [] => []
+  | _, .reorg ctx :: ops => .none :: nrunSCold k maxCycles since ctx ops
+  | ctx, .block true _ :: ops => .none :: nrunSCold k maxCycles since ctx ops
+  | ctx, .block false ws :: ops =>
+    .blk (blockVerify k maxCycles [] (ws.map fun w => (w, mature since ctx w))).2 :: nrunSCold k maxCycles since ctx ops
+  | ctx, .submit w :: ops => .tx (full k maxCycles (mature since ctx w) w) :: nrunSCold k maxCycles since ctx ops
+  | ctx, .probe w :: ops => .tx (full k maxCycles (mature since ctx w) w) :: nrunSCold k maxCycles since ctx ops
+  | ctx, .evict _ :: ops => .none :: nrunSCold k maxCycles since ctx ops
+
+/-- the same node with the pre-06109c6 fill rule -/
+def nstepSPreF32 (k : Content) (maxCycles : Nat) (since : Nat → Nat) (s : NodeS) : NOpS → NodeS × NAns
+  | .block skip ws =>
+    let r := blockVerifySwPreF32 k maxCycles s.cache skip (ws.map fun w => (w, mature since s.ctx w))
+    ({ s with cache := r.1 }, .blk r.2)
+  | op => nstepS k maxCycles since s op
+
+def nrunSPreF32 (k : Content) (maxCycles : Nat) (since : Nat → Nat) : NodeS → List NOpS → List NAns
+  | _, [] => []
+  | s, op :: ops =>
+    let r := nstepSPreF32 k maxCycles since s op
+    (match op with | .block true _ => NAns.none | _ => r.2) :: nrunSPreF32 k maxCycles since r.1 ops
+
+/-! ## round 6: `SYSTEM_CELL`, the pre-resolved system cell deps (`util/types/src/core/cell.rs`)
+
+`resolve_transaction_deps_with_system_cell_cache`: every cell dep of the transaction, in order,
+is either answered from the process-wide `SYSTEM_CELL` map (`setup_system_cell_cache`, `ckb run`:
+three code cells and two dep groups of the genesis block, keyed by the whole `CellDep` = out-point +
+dep type) or resolved through the cell provider (`resolve_transaction_dep`); both paths charge the
+dep-expansion budget (`MAX_DEP_EXPANSION_LIMIT` slots: one per code dep, one per **member** of a
+dep group). An out-point is a number; the provider's view of the chain is `Prov`. -/
+
+inductive CellSt
+  | live | dead | unknown
+deriving DecidableEq, Repr
+
+inductive DepErr
+  | dead (op : Nat)
+  | unknown (op : Nat)
+  | invalidGroup (op : Nat)
+  | overMax
+deriving DecidableEq, Repr
+
+structure Dep where
+  op : Nat
+  group : Bool
+deriving DecidableEq, Repr
+
+structure Prov where
+  /-- `CellProvider::cell` -/
+  status : Nat → CellSt
+  /-- `parse_dep_group_data` of the cell's data: `none` = empty data / malformed / empty vector -/
+  members : Nat → Option (List Nat)
+
+inductive SysDep
+  | cell (op : Nat)
+  | group (op : Nat) (members : List Nat)
+deriving DecidableEq, Repr
+
+abbrev SysMap := List (Dep × SysDep)
+
+def SysMap.get (m : SysMap) (d : Dep) : Option SysDep :=
+  (m.find? (fun e => e.1 == d)).map (·.2)
+
+structure Resolved where
+  cellDeps : List Nat
+  depGroups : List Nat
+  slots : Nat
+deriving DecidableEq, Repr
+
+/-- the `resolve_cell` closure of `resolve_transaction`: inputs seen earlier in the block are dead -/
+def resolveCell (seen : List Nat) (p : Prov) (op : Nat) : Except DepErr Unit :=
+  if seen.contains op then .error (.dead op) else
+  match p.status op with
+  | .live => .ok ()
+  | .dead => .error (.dead op)
+  | .unknown => .error (.unknown op)
+
+def resolveAll (seen : List Nat) (p : Prov) : List Nat → Except DepErr Unit
+  | [] => .ok ()
+  | op :: rest =>
+    match resolveCell seen p op with
+    | .error e => .error e
+    | .ok _ => resolveAll seen p rest
+
+/-- `resolve_transaction_dep` -/
+def resolveDep (seen : List Nat) (p : Prov) (r : Resolved) (d : Dep) : Except DepErr Resolved :=
+  if d.group then
+    match resolveCell seen p d.op with
+    | .error e => .error e
+    | .ok _ =>
+      match p.members d.op with
+      | none => .error (.invalidGroup d.op)
+      | some subs =>
+        if r.slots < subs.length then .error .overMax else
+        match resolveAll seen p subs with
+        | .error e => .error e
+        | .ok _ => .ok { cellDeps := r.cellDeps ++ subs, depGroups := r.depGroups ++ [d.op], slots := r.slots - subs.length }
+  else
+    if r.slots < 1 then .error .overMax else
+    match resolveCell seen p d.op with
+    | .error e => .error e
+    | .ok _ => .ok { cellDeps := r.cellDeps ++ [d.op], depGroups := r.depGroups, slots := r.slots - 1 }
+
+/-- one dep on the path with the `SYSTEM_CELL` map; `groupCost` is what a cached group is charged
+(`cell_deps.len()` in the code as written) -/
+def resolveDepSysG (groupCost : List Nat → Nat) (sys : SysMap) (seen : List Nat) (p : Prov) (r : Resolved) (d : Dep) :
+    Except DepErr Resolved :=
+  match sys.get d with
+  | some (.cell op) =>
+    if r.slots < 1 then .error .overMax else
+    .ok { cellDeps := r.cellDeps ++ [op], depGroups := r.depGroups, slots := r.slots - 1 }
+  | some (.group g ms) =>
+    if r.slots < groupCost ms then .error .overMax else
+    .ok { cellDeps := r.cellDeps ++ ms, depGroups := r.depGroups ++ [g], slots := r.slots - groupCost ms }
+  | none => resolveDep seen p r d
+
+def resolveDepSys := resolveDepSysG List.length
+
+def resolveDepsFrom (step : Resolved → Dep → Except DepErr Resolved) : Resolved → List Dep → Except DepErr Resolved
+  | r, [] => .ok r
+  | r, d :: ds =>
+    match step r d with
+    | .error e => .error e
+    | .ok r' => resolveDepsFrom step r' ds
+
+/-- `resolve_transaction_deps_with_system_cell_cache` (`sys = none`: `SYSTEM_CELL` not initialised) -/
+def resolveDeps (limit : Nat) (sys : Option SysMap) (seen : List Nat) (p : Prov) (deps : List Dep) :
+    Except DepErr Resolved :=
+  match sys with
+  | some m => resolveDepsFrom (resolveDepSys m seen p) ⟨[], [], limit⟩ deps
+  | none => resolveDepsFrom (resolveDep seen p) ⟨[], [], limit⟩ deps
+
+/-- `ResolvedTransaction::check` over the deps (the tx-pool's re-check of a resolved transaction
+against a new tip): with `SYSTEM_CELL` set, system code deps, system groups and the members of
+system groups are not asked for; everything else is `is_live` -/
+def checkCell (p : Prov) (op : Nat) : Except DepErr Unit :=
+  match p.status op with
+  | .live => .ok ()
+  | .dead => .error (.dead op)
+  | .unknown => .error (.unknown op)
+
+def checkAll (p : Prov) : List Nat → Except DepErr Unit
+  | [] => .ok ()
+  | op :: rest => match checkCell p op with | .error e => .error e | .ok _ => checkAll p rest
+
+def sysMembers (sys : SysMap) (groups : List Nat) : List Nat :=
+  groups.flatMap fun g => match sys.get ⟨g, true⟩ with | some (.group _ ms) => ms | _ => []
+
+def checkDeps (sys : Option SysMap) (p : Prov) (r : Resolved) : Except DepErr Unit :=
+  match sys with
+  | none => checkAll p (r.cellDeps ++ r.depGroups)
+  | some m =>
+    let groups := r.depGroups.filter fun g => match m.get ⟨g, true⟩ with | some (.group _ _) => false | _ => true
+    let skip := sysMembers m r.depGroups
+    let cells := r.cellDeps.filter fun c => (m.get ⟨c, false⟩).isNone && !skip.contains c
+    checkAll p (groups ++ cells)
+
+/-! ## round 6: a relayed transaction with declared cycles (`tx-pool/src/process.rs _process_tx`)
+
+`max_cycles = declared_cycles.unwrap_or(max_block_cycles)`; `verify_rtx` (hit: time-relative checks
+and the cached `Completed`; miss: the full verifier under `max_cycles`); then
+`declared != verified.cycles → Reject::DeclaredWrongCycles(declared, verified.cycles)`. -/
+
+inductive PoolRej
+  | verification (e : TxErr)
+  | declaredWrongCycles (declared actual : Nat)
+deriving DecidableEq, Repr
+
+def processDeclared (k : Content) (c : VCache) (declared : Nat) (timeRel : Bool) (w : Nat) : Except PoolRej Completed :=
+  match cached k declared c timeRel w with
+  | .error e => .error (.verification e)
+  | .ok v => if declared ≠ v.cycles then .error (.declaredWrongCycles declared v.cycles) else .ok v
+
 end CkbVerif.Cache
